@@ -1,5 +1,6 @@
 import Autobean.Properties.C03
 import Autobean.Properties.C15
+import Autobean.Model.CustomVals
 /-!
 # C06 — what the model says is what the printed text says (model-side premises: `reparse_partial`)
 
@@ -91,6 +92,81 @@ a declared separator of that piece. -/
 theorem constructed_only_separators (p : Construct.Piece) (t : Construct.Tk) (h : t ∈ Construct.emit p) :
     t ∈ Construct.owned p ∨ t ∈ Autobean.C15.sepsOf p :=
   Autobean.C15.emit_owned_or_separator p t h
+
+/-! ## Custom values: the constructors' disambiguation (`_disambiguate_values`) -/
+section CustomValues
+open Autobean.CustomVals
+
+theorem merges_step (a v : CVal) : merges a (step (decide (a.kind = .num)) v).1 = false := by
+  rcases a with ⟨ak, as⟩; rcases v with ⟨k, s⟩
+  cases ak <;> cases k <;> cases s <;> rfl
+
+theorem step_unwrapped (p : Bool) (v : CVal) (h : (step p v).2 = false) : (step p v).1 = v := by
+  unfold step at h ⊢
+  split
+  · rename_i hc; simp [hc] at h
+  · rfl
+
+theorem step_kind (p : Bool) (v : CVal) : (step p v).1.kind = v.kind := by
+  unfold step; split <;> rfl
+
+theorem mergeCount_disambFrom (p : Bool) (vs : List CVal) :
+    mergeCount ((disambFrom p vs).map (·.1)) = 0 ∧
+    ∀ a : CVal, (decide (a.kind = .num) = p) → ∀ r rest, (disambFrom p vs) = r :: rest → merges a r.1 = false := by
+  induction vs generalizing p with
+  | nil => exact ⟨rfl, fun _ _ _ _ h => by simp [disambFrom] at h⟩
+  | cons v vs ih =>
+    have ih' := ih (decide ((step p v).1.kind = .num))
+    refine ⟨?_, ?_⟩
+    · cases hvs : disambFrom (decide ((step p v).1.kind = .num)) vs with
+      | nil => simp [disambFrom, hvs, mergeCount]
+      | cons r rest =>
+        have h1 := ih'.2 (step p v).1 rfl r rest hvs
+        have h0 := ih'.1
+        rw [hvs] at h0
+        simp only [disambFrom, hvs, List.map_cons, mergeCount, h1]
+        simpa using h0
+    · intro a ha r rest h
+      simp only [disambFrom, List.cons.injEq] at h
+      rw [← h.1, ← ha]
+      exact merges_step a v
+
+theorem disambFrom_length (p : Bool) (ws : List CVal) : (disambFrom p ws).length = ws.length := by
+  induction ws generalizing p with
+  | nil => rfl
+  | cons v ws ih => simp [disambFrom, ih]
+
+/-- **Every value survives.** The sequence the constructors emit contains no number expression directly followed
+by a sign-leading number / amount, so the reader merges nothing: it reads back as many values as were given. -/
+theorem disamb_reads_all (vs : List CVal) : readCount ((disamb vs).map (·.1)) = vs.length := by
+  unfold readCount disamb
+  rw [(mergeCount_disambFrom false vs).1, List.length_map, disambFrom_length]
+  rfl
+
+/-- Nothing but the leading sign flag of a wrapped value changes (kinds, order and number of values are kept), and a
+value that was not wrapped is yielded as it came. -/
+theorem disamb_only_wraps (p : Bool) (vs : List CVal) :
+    ((disambFrom p vs).map (·.1.kind)) = vs.map (·.kind) ∧
+    ∀ r ∈ disambFrom p vs, r.2 = false → r.1 ∈ vs := by
+  induction vs generalizing p with
+  | nil => exact ⟨rfl, fun _ h => by simp [disambFrom] at h⟩
+  | cons v vs ih =>
+    have ih' := ih (decide ((step p v).1.kind = .num))
+    refine ⟨?_, ?_⟩
+    · simp only [disambFrom, List.map_cons, step_kind]
+      rw [(ih (decide (v.kind = .num))).1]
+    · intro r hr h2
+      simp only [disambFrom, List.mem_cons] at hr
+      rcases hr with rfl | hr
+      · rw [step_unwrapped p v h2]; exact List.mem_cons_self
+      · exact List.mem_cons_of_mem _ (ih'.2 r hr h2)
+
+/-! Non-vacuity, and why the flag must be set again after a wrapped value: `1 -2 -3` becomes `1 (-2) (-3)` - were the
+second wrap skipped ("a parenthesised number is self-delimiting"), `(-2) -3` would read as one expression. -/
+example : (disamb [⟨.num, false⟩, ⟨.num, true⟩, ⟨.num, true⟩]).map (·.2) = [false, true, true] := by decide
+example : readCount [⟨.num, false⟩, ⟨.num, false⟩, ⟨.num, true⟩] = 2 := by decide
+
+end CustomValues
 
 /-! Non-vacuity: the separators of `Open._booking` (one blank) are visible. -/
 example : Visible [⟨1, 0, [' ']⟩] := ⟨⟨1, 0, [' ']⟩, by simp, by simp⟩
